@@ -115,7 +115,7 @@ fn real_cause(e: &SummaryError) -> Option<Cause> {
 fn ambiguous_integer(text: &str) -> bool {
     ms::lines(text).iter().any(|l| {
         ["FILE_SIZE=", "SIZE_PKG="].iter().any(|k| match l.strip_prefix(k) {
-            Some(v) => ms::parse_int(v).map(|n| n.to_string() != v).unwrap_or(false),
+            Some(v) => ms::parse_int(v.trim()).map(|n| n.to_string() != v).unwrap_or(false),
             None => false,
         })
     })
@@ -162,8 +162,11 @@ fn check_text(t: &mut Tally, text: &str) {
             // (it may name none): upper-case words of the message that are supported variable names
             if let Some(Cause::Incomplete(i)) = real_cause(e) {
                 let msg = e.to_string();
-                let named: Vec<&str> = msg.split(|c: char| !(c.is_ascii_uppercase() || c == '_')).filter(|w| ms::var_index(w).is_some()).collect();
-                if !named.is_empty() && !named.contains(&VARS[i].0) {
+                let mut named: Vec<&str> = msg.split(|c: char| !(c.is_ascii_uppercase() || c == '_')).filter(|w| ms::var_index(w).is_some()).collect();
+                named.sort();
+                named.dedup();
+                // only an unambiguous misnaming: exactly one variable is named, and it is another one
+                if named.len() == 1 && named[0] != VARS[i].0 {
                     t.violation(Violation::new("text", case(), json!(format!("a message about {}", VARS[i].0)), json!(msg), "the error's message names a different variable than the one that is missing"));
                     return;
                 }
@@ -446,26 +449,19 @@ fn main() {
         const AZ: &[u8] = b"ABCDEFGHIJKLMNOPQRSTUVWXYZ_";
         let n = run.pick(4, 6);
         run.bound(format!("every variable name: all {} strings of <= {} characters over A-Z and '_' as NAME=x", seqs::count(AZ.len(), n), n));
+        // the name is the only possible fault: the line is appended to the complete minimal entry
+        let base: String = required_entry(None).iter().map(|l| format!("{}\n", l)).collect();
         seqs::par_seqs(&run, "C08 names", AZ.len(), n, 2, |_| false, |q, t| {
             if q.is_empty() {
                 return;
             }
-            let mut line = String::with_capacity(q.len() + 2);
+            let mut text = String::with_capacity(base.len() + q.len() + 3);
+            text.push_str(&base);
             for i in q {
-                line.push(AZ[*i] as char);
+                text.push(AZ[*i] as char);
             }
-            let known = ms::var_index(&line).is_some();
-            line.push_str("=x");
-            t.evals += 1;
-            t.validated += 1;
-            match guard(|| Summary::from_str(&line).map(|_| ())) {
-                Ok(Err(SummaryError::ParseVariable(_))) if !known => t.outcome("name/unknown-rejected"),
-                Ok(Err(SummaryError::Incomplete(_))) | Ok(Err(SummaryError::ParseInt(_))) if known => {
-                    t.nontrivial += 1;
-                    t.outcome("name/known-accepted")
-                }
-                other => t.violation(Violation::new("text", json!({"text": line}), json!(if known { "a supported variable" } else { "unknown variable" }), json!(format!("{:?}", other.map(|r| r.map_err(|e| e.to_string())))), "a name that is not one of the 23 supported variables must be reported as an unknown variable")),
-            }
+            text.push_str("=x");
+            check_text(t, &text);
         });
     }
     run.finish();
